@@ -81,8 +81,8 @@ Proof. unfold ctor_md. rewrite forallb_falsy_cast. destruct (forallb md_falsy l)
 
 Lemma ctor_md_idem md : ctor_md (ctor_md md) = ctor_md md.
 Proof.
-  destruct md as [l|]; [|reflexivity]. unfold ctor_md at 2.
-  destruct (forallb md_falsy l) eqn:F; [reflexivity|]. rewrite ctor_md_cast. unfold ctor_md. rewrite F. reflexivity.
+  destruct md as [l|]; [|reflexivity]. simpl.
+  destruct (forallb md_falsy l) eqn:F; [reflexivity|]. rewrite ctor_md_cast. simpl. rewrite F. reflexivity.
 Qed.
 
 (* selecting entries commutes with the normalisation (positions in range) *)
@@ -91,11 +91,14 @@ Lemma take_md_ctor fancy md n :
   ctor_md (take_md fancy (ctor_md md)) = ctor_md (take_md fancy md).
 Proof.
   intros Hok Hb. destruct md as [l|]; [|reflexivity]. simpl in Hok. subst n.
-  unfold ctor_md at 2. destruct (forallb md_falsy l) eqn:F.
-  - simpl. symmetry. replace (forallb md_falsy (map (fun i => nth i l (I 0%Z)) fancy)) with true; [reflexivity|].
-    symmetry. apply forallb_forall. intros m Hm. apply in_map_iff in Hm. destruct Hm as [i [<- Hi]].
-    rewrite forallb_forall in F. apply F. apply nth_In. rewrite Forall_forall in Hb. apply Hb. exact Hi.
-  - unfold take_md, option_map.
+  destruct (forallb md_falsy l) eqn:F.
+  - replace (ctor_md (Some l)) with (@None (list Tree)) by (simpl; rewrite F; reflexivity).
+    assert (G : forallb md_falsy (map (fun i => nth i l (I 0%Z)) fancy) = true).
+    { apply forallb_forall. intros m Hm. apply in_map_iff in Hm. destruct Hm as [i [<- Hi]].
+      rewrite forallb_forall in F. apply F. apply nth_In. rewrite Forall_forall in Hb. apply Hb. exact Hi. }
+    simpl. rewrite G. reflexivity.
+  - replace (ctor_md (Some l)) with (Some (map cast_entry l)) by (simpl; rewrite F; reflexivity).
+    unfold take_md, option_map.
     replace (map (fun i => nth i (map cast_entry l) (I 0%Z)) fancy)
       with (map cast_entry (map (fun i => nth i l (I 0%Z)) fancy)); [apply ctor_md_cast|].
     rewrite map_map. apply map_ext_in. intros i Hi. symmetry.
@@ -207,11 +210,13 @@ Proof.
   - repeat split; try assumption.
     + rewrite perm_rows_length. exact Hl.
     + apply perm_rows_rect; [exact H2|]. rewrite H1. exact Hb.
-    + rewrite <- Hl. apply md_ok_take.
+    + apply md_ok_ctor. rewrite <- Hl. apply md_ok_take.
+    + apply md_ok_ctor. exact H6.
   - repeat split; try assumption.
     + rewrite perm_cols_length. exact H1.
     + rewrite <- Hl. apply perm_cols_rect.
-    + rewrite <- Hl. apply md_ok_take.
+    + apply md_ok_ctor. exact H5.
+    + apply md_ok_ctor. rewrite <- Hl. apply md_ok_take.
 Qed.
 
 Lemma errcheck_ok t : NoDup (oids t) -> NoDup (sids t) -> errcheck t = ROk t.
@@ -222,6 +227,42 @@ Qed.
 
 Lemma errcheck_inv t t' : errcheck t = ROk t' -> t' = t.
 Proof. unfold errcheck. destruct (_ || _); intros H; [discriminate|]. inversion H. reflexivity. Qed.
+
+Lemma errcheck_NoDup t t' : errcheck t = ROk t' -> t' = t /\ NoDup (oids t) /\ NoDup (sids t).
+Proof.
+  unfold errcheck. destruct (zdup (oids t)) eqn:A; [discriminate|]. destruct (zdup (sids t)) eqn:B; [discriminate|].
+  simpl. intros H. inversion H; subst. split; [reflexivity|]. split; apply zdup_false_NoDup; assumption.
+Qed.
+
+Lemma wf_md_ok a t : wf t -> md_ok (mds a t) (length (ids a t)).
+Proof. intros (_ & _ & _ & _ & H5 & H6). destruct a; assumption. Qed.
+
+Lemma wf_NoDup a t : wf t -> NoDup (ids a t).
+Proof. intros (_ & _ & H3 & H4 & _). destruct a; assumption. Qed.
+
+(* ---------------- copy: the content through the constructor ---------------- *)
+Lemma wf_copy t : wf t -> wf (copy t).
+Proof.
+  intros (H1 & H2 & H3 & H4 & H5 & H6). unfold wf, copy, nobs, nsamp in *; simpl.
+  repeat split; try assumption; apply md_ok_ctor; assumption.
+Qed.
+
+Theorem copy_id t : normal t -> copy t = t.
+Proof. intros [A B]. unfold md_normal in *. destruct t; unfold copy; simpl in *. rewrite A, B. reflexivity. Qed.
+
+Lemma copy_normal t : normal (copy t).
+Proof. split; unfold md_normal; simpl; apply ctor_md_idem. Qed.
+
+Lemma copy_copy t : copy (copy t) = copy t.
+Proof. apply copy_id. apply copy_normal. Qed.
+
+Theorem copy_content_same t :
+  oids (copy t) = oids t /\ sids (copy t) = sids t /\ mat (copy t) = mat t /\ ttype (copy t) = ttype t /\
+  (forall o s, cell (copy t) o s = cell t o s) /\ (forall b x, md_view b (copy t) x = md_view b t x) /\
+  omd (copy t) = ctor_md (omd t) /\ smd (copy t) = ctor_md (smd t).
+Proof.
+  repeat split; try reflexivity. intros b x. apply md_view_ctor; destruct b; reflexivity.
+Qed.
 
 (* ---------------- values and metadata travel with the ids ---------------- *)
 (* every id that is named in [order] keeps its values (also when [order] only selects) *)
@@ -247,51 +288,45 @@ Proof.
   - destruct (pos y (oids t)); reflexivity.
 Qed.
 
+Lemma reorder_parts fancy order a t :
+  ids a (reorder fancy order a t) = order /\
+  ids (other a) (reorder fancy order a t) = ids (other a) t /\
+  mds a (reorder fancy order a t) = ctor_md (take_md fancy (mds a t)) /\
+  mds (other a) (reorder fancy order a t) = ctor_md (mds (other a) t) /\
+  ttype (reorder fancy order a t) = ttype t.
+Proof. destruct a; simpl; repeat split; reflexivity. Qed.
+
+(* metadata as a user sees it (None and the empty dict identified: Model/Orient.v md_view) *)
 Lemma reorder_md_in fancy order a t x :
   md_ok (mds a t) (length (ids a t)) ->
   lookup_all order (ids a t) = Some fancy -> In x order ->
-  md_of a (reorder fancy order a t) x = md_of a t x.
+  md_view a (reorder fancy order a t) x = md_view a t x.
 Proof.
   intros Hmd H Hx. destruct (lookup_all_spec _ _ _ H) as [Hl Hn].
   destruct (In_pos x order Hx) as [k Hk]. pose proof (pos_Some _ _ _ Hk) as [Ek Hklt].
   specialize (Hn k Hklt). rewrite Ek in Hn. pose proof (pos_Some _ _ _ Hn) as [_ Hb].
-  assert (G : forall md, md_ok md (length (ids a t)) ->
-            match take_md fancy md with Some l => nth_error l k | None => None end =
-            match md with Some l => nth_error l (nth k fancy 0) | None => None end).
-  { intros [l|] Hok; simpl in *; [|reflexivity].
-    rewrite (nth_error_nth' _ (I 0%Z)) by (rewrite map_length; lia).
-    rewrite (nth_error_nth' l (I 0%Z)) by lia.
-    f_equal. rewrite (nth_map_lt (fun i => nth i l (I 0%Z)) fancy k 0 (I 0%Z)) by lia. reflexivity. }
-  destruct a; unfold md_of, md_at, reorder; simpl in *; rewrite Hk, Hn; apply G; exact Hmd.
+  destruct (reorder_parts fancy order a t) as (E1 & _ & E3 & _).
+  rewrite !md_view_entry, E1, E3, Hk, Hn, entry_view_ctor.
+  apply (entry_view_take fancy (mds a t) (length (ids a t))); [exact Hmd|lia|exact Hb].
 Qed.
 
 Lemma reorder_md_out fancy order a t x :
-  ~ In x order -> ~ In x (ids a t) -> md_of a (reorder fancy order a t) x = md_of a t x.
+  ~ In x order -> ~ In x (ids a t) -> md_view a (reorder fancy order a t) x = md_view a t x.
 Proof.
   intros H1 H2. apply pos_None in H1. apply pos_None in H2.
-  destruct a; unfold md_of, reorder; simpl in *; rewrite H1, H2; reflexivity.
+  destruct (reorder_parts fancy order a t) as (E1 & _). rewrite !md_view_entry, E1, H1, H2. reflexivity.
 Qed.
 
-Lemma reorder_other fancy order a t :
-  ids a (reorder fancy order a t) = order /\
-  ids (other a) (reorder fancy order a t) = ids (other a) t /\
-  mds (other a) (reorder fancy order a t) = mds (other a) t /\
-  ttype (reorder fancy order a t) = ttype t.
-Proof. destruct a; simpl; repeat split; reflexivity. Qed.
+Lemma reorder_md_other fancy order a t x :
+  md_view (other a) (reorder fancy order a t) x = md_view (other a) t x.
+Proof. destruct (reorder_parts fancy order a t) as (_ & E2 & _ & E4 & _). apply md_view_ctor; assumption. Qed.
 
-Lemma wf_md_ok a t : wf t -> md_ok (mds a t) (length (ids a t)).
-Proof. intros (_ & _ & _ & _ & H5 & H6). destruct a; assumption. Qed.
-
-Lemma wf_NoDup a t : wf t -> NoDup (ids a t).
-Proof. intros (_ & _ & H3 & H4 & _). destruct a; assumption. Qed.
+Lemma reorder_normal fancy order a t : normal (reorder fancy order a t).
+Proof. destruct a; split; unfold md_normal; simpl; apply ctor_md_idem. Qed.
 
 Lemma cell_ax_cell a t' t :
   (forall x y, cell_ax a t' x y = cell_ax a t x y) -> forall o s, cell t' o s = cell t o s.
 Proof. intros H o s. destruct a; [exact (H o s)|exact (H s o)]. Qed.
-
-(* metadata lookup depends only on the ids and the metadata list of its axis *)
-Lemma md_of_ext a t t' x : ids a t' = ids a t -> mds a t' = mds a t -> md_of a t' x = md_of a t x.
-Proof. intros E1 E2. unfold md_of, md_at. rewrite E1, E2. reflexivity. Qed.
 
 (* ---------------- sort_order on a permutation ---------------- *)
 Theorem sort_order_perm order a t :
@@ -299,9 +334,9 @@ Theorem sort_order_perm order a t :
   exists t', sort_order order a t = ROk t' /\
     ids a t' = order /\
     (forall o s, cell t' o s = cell t o s) /\
-    (forall x, md_of a t' x = md_of a t x) /\
-    ids (other a) t' = ids (other a) t /\ mds (other a) t' = mds (other a) t /\
-    ttype t' = ttype t /\ wf t'.
+    (forall b x, md_view b t' x = md_view b t x) /\
+    ids (other a) t' = ids (other a) t /\ mds (other a) t' = ctor_md (mds (other a) t) /\
+    ttype t' = ttype t /\ normal t' /\ wf t'.
 Proof.
   intros W P.
   assert (Nord : NoDup order) by (eapply Permutation_NoDup; [apply Permutation_sym; exact P|apply wf_NoDup; exact W]).
@@ -309,7 +344,7 @@ Proof.
   { intros x Hx. eapply Permutation_in; eassumption. }
   exists (reorder fancy order a t).
   pose proof (wf_reorder fancy order a t W Hf Nord) as W'.
-  destruct (reorder_other fancy order a t) as (E1 & E2 & E3 & E4).
+  destruct (reorder_parts fancy order a t) as (E1 & E2 & E3 & E4 & E5).
   split.
   { unfold sort_order. rewrite Hf. apply errcheck_ok.
     - apply (wf_NoDup Obs _ W').
@@ -321,28 +356,48 @@ Proof.
     - apply reorder_cell_out; [exact Hn|]. intros Hin. apply Hn.
       eapply Permutation_in; [apply Permutation_sym; exact P|exact Hin]. }
   split.
-  { intros x. destruct (In_dec Z.eq_dec x order) as [Hi|Hn].
-    - apply reorder_md_in; [apply wf_md_ok; exact W|exact Hf|exact Hi].
-    - apply reorder_md_out; [exact Hn|]. intros Hin. apply Hn.
-      eapply Permutation_in; [apply Permutation_sym; exact P|exact Hin]. }
-  split; [exact E2|]. split; [exact E3|]. split; [exact E4|exact W'].
+  { intros b x. assert (Hb : b = a \/ b = other a) by (destruct a, b; tauto). destruct Hb as [->| ->].
+    - destruct (In_dec Z.eq_dec x order) as [Hi|Hn].
+      + apply reorder_md_in; [apply wf_md_ok; exact W|exact Hf|exact Hi].
+      + apply reorder_md_out; [exact Hn|]. intros Hin. apply Hn.
+        eapply Permutation_in; [apply Permutation_sym; exact P|exact Hin].
+    - apply reorder_md_other. }
+  split; [exact E2|]. split; [exact E4|]. split; [exact E5|]. split; [apply reorder_normal|exact W'].
 Qed.
 
-(* an order that only selects (distinct known ids): the named ids keep values and metadata *)
+(* an order that only selects (distinct known ids): the named ids keep values and metadata; the
+   axis ends up WITHOUT metadata exactly when every kept id's metadata is empty / None *)
 Theorem sort_order_select order a t :
   wf t -> NoDup order -> (forall x, In x order -> In x (ids a t)) ->
   exists t', sort_order order a t = ROk t' /\ ids a t' = order /\
     (forall x y, In x order -> cell_ax a t' x y = cell_ax a t x y) /\
-    (forall x, In x order -> md_of a t' x = md_of a t x) /\ wf t'.
+    (forall x, In x order -> md_view a t' x = md_view a t x) /\
+    (forall x, md_view (other a) t' x = md_view (other a) t x) /\
+    (mds a t' = None <-> forall x, In x order -> md_view a t x = md_empty) /\
+    normal t' /\ wf t'.
 Proof.
   intros W N Hin. destruct (lookup_all_total order (ids a t) Hin) as [fancy Hf].
   exists (reorder fancy order a t). pose proof (wf_reorder fancy order a t W Hf N) as W'.
+  destruct (reorder_parts fancy order a t) as (E1 & E2 & E3 & E4 & E5).
+  assert (Hmd : forall x, In x order -> md_view a (reorder fancy order a t) x = md_view a t x).
+  { intros x Hx. apply reorder_md_in; [apply wf_md_ok; exact W|exact Hf|exact Hx]. }
   split.
   { unfold sort_order. rewrite Hf. apply errcheck_ok; [apply (wf_NoDup Obs _ W')|apply (wf_NoDup Samp _ W')]. }
-  split; [apply reorder_other|]. split.
+  split; [exact E1|]. split.
   { intros x y Hx. apply reorder_cell_in; assumption. }
-  split; [|exact W'].
-  intros x Hx. apply reorder_md_in; [apply wf_md_ok; exact W|exact Hf|exact Hx].
+  split; [exact Hmd|]. split; [intros x; apply reorder_md_other|]. split.
+  { split.
+    - intros Hnone x Hx. rewrite <- (Hmd x Hx). rewrite md_view_entry, Hnone. destruct (pos x _); reflexivity.
+    - intros Hall. rewrite E3. apply ctor_md_None_iff. intros k.
+      destruct (Nat.lt_ge_cases k (length order)) as [Hk|Hk].
+      + assert (Hx : In (nth k order 0%Z) order) by (apply nth_In; exact Hk).
+        specialize (Hall _ Hx). rewrite <- (Hmd _ Hx) in Hall.
+        rewrite md_view_entry, E1, E3, (pos_nth_NoDup order k N Hk), entry_view_ctor in Hall. exact Hall.
+      + destruct (lookup_all_spec _ _ _ Hf) as [Hl _].
+        destruct (mds a t) as [l|]; [|reflexivity]. simpl.
+        replace (nth_error (map (fun i => nth i l (I 0%Z)) fancy) k) with (@None Tree); [reflexivity|].
+        symmetry. apply nth_error_None. rewrite map_length. lia. }
+  split; [apply reorder_normal|exact W'].
 Qed.
 
 Theorem sort_order_unknown order a t :
@@ -372,9 +427,11 @@ Proof.
     rewrite (nth_map_lt _ fancy (nth k fancy' 0) 0 (I 0%Z)) by exact A. rewrite B. reflexivity.
 Qed.
 
+(* the result is the original table as the constructor normalises it: [copy t], which is [t]
+   itself when its metadata is constructor-normal *)
 Theorem sort_order_back order a t t' :
   wf t -> Permutation order (ids a t) -> sort_order order a t = ROk t' ->
-  sort_order (ids a t) a t' = ROk t.
+  sort_order (ids a t) a t' = ROk (copy t).
 Proof.
   intros W P H.
   assert (Nord : NoDup order) by (eapply Permutation_NoDup; [apply Permutation_sym; exact P|apply wf_NoDup; exact W]).
@@ -388,10 +445,17 @@ Proof.
   pose proof (lookup_all_bound _ _ _ Hf) as Hb. pose proof (lookup_all_bound _ _ _ Hf') as Hb'.
   unfold sort_order. replace (ids a (reorder fancy order a t)) with order by (destruct a; reflexivity).
   rewrite Hf'.
-  assert (E : reorder fancy' (ids a t) a (reorder fancy order a t) = t).
-  { destruct W as (H1 & H2 & H3 & H4 & H5 & H6). destruct t as [oi si m om sm ty].
+  assert (Hmd : forall md, md_ok md (length (ids a t)) ->
+            ctor_md (take_md fancy' (ctor_md (take_md fancy md))) = ctor_md md).
+  { intros md Hok. rewrite (take_md_ctor fancy' (take_md fancy md) (length fancy)).
+    - rewrite (take_md_inverse fancy fancy' md (length (ids a t))); [reflexivity|exact Hok|exact Hl'|exact Inv].
+    - apply md_ok_take.
+    - rewrite Hl. exact Hb'. }
+  assert (E : reorder fancy' (ids a t) a (reorder fancy order a t) = copy t).
+  { pose proof (wf_md_ok a t W) as Hok.
+    destruct W as (H1 & H2 & H3 & H4 & H5 & H6). destruct t as [oi si m om sm ty].
     unfold nobs, nsamp in *; simpl in *.
-    destruct a; unfold reorder; simpl in *; f_equal.
+    destruct a; unfold reorder, copy; simpl in *; f_equal.
     - (* rows *)
       apply (mat_ext (length si)).
       + rewrite perm_rows_length. lia.
@@ -403,7 +467,8 @@ Proof.
         rewrite get_perm_rows by exact Hi.
         destruct (Inv i) as [A B]; [lia|].
         rewrite get_perm_rows by exact A. rewrite B. reflexivity.
-    - apply (take_md_inverse fancy fancy' om (length oi)); [exact H5|exact Hl'|exact Inv].
+    - apply Hmd. exact Hok.
+    - apply ctor_md_idem.
     - (* columns *)
       apply (mat_ext (length si)).
       + rewrite !perm_cols_length. reflexivity.
@@ -413,7 +478,8 @@ Proof.
         rewrite get_perm_cols by lia.
         destruct (Inv j) as [A B]; [lia|].
         rewrite get_perm_cols by exact A. rewrite B. reflexivity.
-    - apply (take_md_inverse fancy fancy' sm (length si)); [exact H6|exact Hl'|exact Inv]. }
+    - apply ctor_md_idem.
+    - apply Hmd. exact Hok. }
   rewrite E. apply errcheck_ok; [apply (wf_NoDup Obs _ W)|apply (wf_NoDup Samp _ W)].
 Qed.
 
@@ -427,17 +493,37 @@ Section SortProofs.
     exists t', sort sortf a t = ROk t' /\
       ids a t' = sortf (ids a t) /\
       (forall o s, cell t' o s = cell t o s) /\
-      (forall x, md_of a t' x = md_of a t x) /\
-      ids (other a) t' = ids (other a) t /\ mds (other a) t' = mds (other a) t /\
-      ttype t' = ttype t /\ wf t'.
+      (forall b x, md_view b t' x = md_view b t x) /\
+      ids (other a) t' = ids (other a) t /\ mds (other a) t' = ctor_md (mds (other a) t) /\
+      ttype t' = ttype t /\ normal t' /\ wf t'.
   Proof. intros W. unfold sort. apply sort_order_perm; [exact W|apply sortf_perm]. Qed.
 End SortProofs.
 
-(* ---------------- copy ---------------- *)
-Theorem copy_id t : copy t = t.
-Proof. destruct t; reflexivity. Qed.
+(* ---------------- transpose through the constructor ---------------- *)
+Theorem transpose_c_spec t : wf t ->
+  oids (transpose_c t) = sids t /\ sids (transpose_c t) = oids t /\
+  (forall o s, cell (transpose_c t) s o = cell t o s) /\
+  (forall b x, md_view b (transpose_c t) x = md_view (other b) t x) /\
+  omd (transpose_c t) = ctor_md (smd t) /\ smd (transpose_c t) = ctor_md (omd t) /\
+  normal (transpose_c t) /\ wf (transpose_c t).
+Proof.
+  intros W. split; [reflexivity|]. split; [reflexivity|]. split.
+  { intros o s. rewrite <- (transpose_cell t o s W). reflexivity. }
+  split.
+  { intros b x. rewrite !md_view_entry. destruct b; simpl; destruct (pos x _); try reflexivity; apply entry_view_ctor. }
+  split; [reflexivity|]. split; [reflexivity|]. split.
+  { split; unfold md_normal; simpl; apply ctor_md_idem. }
+  pose proof (wf_transpose t W) as (H1 & H2 & H3 & H4 & H5 & H6).
+  unfold wf, transpose_c, transpose_t, nobs, nsamp in *; simpl in *.
+  repeat split; try assumption; apply md_ok_ctor; assumption.
+Qed.
 
-(* ---------------- transpose: ids and metadata swap ---------------- *)
+Theorem transpose_c_twice t : wf t -> transpose_c (transpose_c t) = mkT (oids t) (sids t) (mat t) (ctor_md (omd t)) (ctor_md (smd t)) NOTYPE.
+Proof.
+  intros (H1 & H2 & _). unfold transpose_c, nsamp, nobs in *; simpl.
+  rewrite !ctor_md_idem. f_equal. rewrite <- H1. apply transpose_involutive. exact H2.
+Qed.
+
 Theorem transpose_swaps a t :
   ids a (transpose_t t) = ids (other a) t /\ mds a (transpose_t t) = mds (other a) t /\
   (forall x, md_of a (transpose_t t) x = md_of (other a) t x).
@@ -449,6 +535,9 @@ Proof.
   intros (H1 & H2 & H3 & H4 & H5 & H6) N L.
   destruct a; unfold wf, set_ids, nobs, nsamp in *; simpl in *; rewrite ?L; repeat split; assumption.
 Qed.
+
+Lemma set_ids_copy a new t : set_ids a new (copy t) = copy (set_ids a new t).
+Proof. destruct a; reflexivity. Qed.
 
 Lemma new_ids_ok m strict l :
   (strict = true -> forall x, In x l -> mapped m x = true) -> new_ids m strict l = Some (map (rename m) l).
@@ -466,12 +555,32 @@ Proof.
   rewrite forallb_forall in E. rewrite (E x Hx) in Hm. discriminate.
 Qed.
 
-Theorem update_ids_inplace_same m a strict t :
-  update_ids m a strict true t = update_ids m a strict false t.
+Definition rmap {A B} (f : A -> B) (r : result A) : result B :=
+  match r with ROk a => ROk (f a) | RErr c => RErr c end.
+
+Lemma errcheck_copy t : errcheck (copy t) = rmap copy (errcheck t).
+Proof. unfold errcheck. simpl. destruct (_ || _); reflexivity. Qed.
+
+(* the copying variant returns the copy (= constructor-normalised content) of what the in-place
+   variant leaves in the receiver; same refusals *)
+Theorem update_ids_new_is_copy m a strict t :
+  update_ids m a strict false t = rmap copy (update_ids m a strict true t).
 Proof.
   unfold update_ids. destruct (new_ids m strict (ids a t)) as [new|]; [|reflexivity].
-  rewrite copy_id. destruct (zdup new) eqn:E; [|reflexivity].
+  rewrite set_ids_copy, errcheck_copy. destruct (zdup new) eqn:E; [|reflexivity].
   unfold errcheck. destruct a; simpl; rewrite E; [reflexivity|rewrite orb_true_r; reflexivity].
+Qed.
+
+Lemma errcheck_normal_copy t : normal t -> rmap copy (errcheck t) = errcheck t.
+Proof. intros N. unfold errcheck. destruct (_ || _); simpl; [reflexivity|]. rewrite (copy_id t N). reflexivity. Qed.
+
+Theorem update_ids_inplace_same m a strict t :
+  normal t -> update_ids m a strict true t = update_ids m a strict false t.
+Proof.
+  intros N. rewrite update_ids_new_is_copy. unfold update_ids.
+  destruct (new_ids m strict (ids a t)) as [new|]; [|reflexivity].
+  destruct (zdup new); [reflexivity|]. symmetry. apply errcheck_normal_copy.
+  destruct N as [A B]. destruct a; split; simpl; assumption.
 Qed.
 
 Theorem update_ids_injective m a strict inplace t :
@@ -481,27 +590,41 @@ Theorem update_ids_injective m a strict inplace t :
   exists t', update_ids m a strict inplace t = ROk t' /\
     ids a t' = map (rename m) (ids a t) /\
     (forall x y, In x (ids a t) -> cell_ax a t' (rename m x) y = cell_ax a t x y) /\
-    (forall x, In x (ids a t) -> md_of a t' (rename m x) = md_of a t x) /\
-    ids (other a) t' = ids (other a) t /\ mds a t' = mds a t /\ mds (other a) t' = mds (other a) t /\
+    (forall x, In x (ids a t) -> md_view a t' (rename m x) = md_view a t x) /\
+    (forall x, md_view (other a) t' x = md_view (other a) t x) /\
+    ids (other a) t' = ids (other a) t /\
+    (forall b, mds b t' = if inplace then mds b t else ctor_md (mds b t)) /\
     mat t' = mat t /\ ttype t' = ttype t /\ wf t'.
 Proof.
   intros W Hs Inj.
   assert (N : NoDup (map (rename m) (ids a t))) by (apply NoDup_map_inj_on; [apply wf_NoDup; exact W|exact Inj]).
-  exists (set_ids a (map (rename m) (ids a t)) t).
-  assert (W' : wf (set_ids a (map (rename m) (ids a t)) t)) by (apply wf_set_ids; [exact W|exact N|apply map_length]).
-  split.
-  { destruct inplace; [|rewrite <- update_ids_inplace_same];
-      unfold update_ids; rewrite (new_ids_ok m strict _ Hs);
-      (replace (zdup (map (rename m) (ids a t))) with false by (symmetry; apply zdup_false_NoDup; exact N));
-      apply errcheck_ok; [apply (wf_NoDup Obs _ W')|apply (wf_NoDup Samp _ W')|apply (wf_NoDup Obs _ W')|apply (wf_NoDup Samp _ W')]. }
-  split; [destruct a; reflexivity|]. split.
-  { intros x y Hx. destruct a; unfold cell_ax, cell, set_ids; simpl in *;
+  set (t1 := set_ids a (map (rename m) (ids a t)) t).
+  assert (W1 : wf t1) by (apply wf_set_ids; [exact W|exact N|apply map_length]).
+  assert (E1 : update_ids m a strict true t = ROk t1).
+  { unfold update_ids. rewrite (new_ids_ok m strict _ Hs).
+    replace (zdup (map (rename m) (ids a t))) with false by (symmetry; apply zdup_false_NoDup; exact N).
+    apply errcheck_ok; [apply (wf_NoDup Obs _ W1)|apply (wf_NoDup Samp _ W1)]. }
+  assert (Hcell : forall x y, In x (ids a t) -> cell_ax a t1 (rename m x) y = cell_ax a t x y).
+  { intros x y Hx. unfold t1. destruct a; unfold cell_ax, cell, set_ids; simpl in *;
       rewrite (pos_map_inj_on (rename m) _ x Hx Inj); reflexivity. }
-  split.
-  { intros x Hx. destruct a; unfold md_of, md_at, set_ids; simpl in *;
+  assert (Hmd : forall x, In x (ids a t) -> md_view a t1 (rename m x) = md_view a t x).
+  { intros x Hx. unfold t1. rewrite !md_view_entry. destruct a; simpl in *;
       rewrite (pos_map_inj_on (rename m) _ x Hx Inj); reflexivity. }
-  split; [destruct a; reflexivity|]. split; [destruct a; reflexivity|]. split; [destruct a; reflexivity|].
-  split; [destruct a; reflexivity|]. split; [destruct a; reflexivity|exact W'].
+  assert (Hoth : forall x, md_view (other a) t1 x = md_view (other a) t x).
+  { intros x. apply md_view_same; unfold t1; destruct a; reflexivity. }
+  destruct inplace.
+  - exists t1. split; [exact E1|]. split; [unfold t1; destruct a; reflexivity|].
+    split; [exact Hcell|]. split; [exact Hmd|]. split; [exact Hoth|].
+    split; [unfold t1; destruct a; reflexivity|]. split; [intros b; unfold t1; destruct a, b; reflexivity|].
+    split; [unfold t1; destruct a; reflexivity|]. split; [unfold t1; destruct a; reflexivity|exact W1].
+  - exists (copy t1). split; [rewrite update_ids_new_is_copy, E1; reflexivity|].
+    destruct (copy_content_same t1) as (C1 & C2 & C3 & C4 & C5 & C6 & C7 & C8).
+    split; [unfold t1; destruct a; reflexivity|].
+    split; [intros x y Hx; rewrite <- (Hcell x y Hx); destruct a; unfold cell_ax; apply C5|].
+    split; [intros x Hx; rewrite C6; apply Hmd; exact Hx|].
+    split; [intros x; rewrite C6; apply Hoth|].
+    split; [unfold t1; destruct a; reflexivity|]. split; [intros b; unfold t1; destruct a, b; reflexivity|].
+    split; [unfold t1; destruct a; reflexivity|]. split; [unfold t1; destruct a; reflexivity|apply wf_copy; exact W1].
 Qed.
 
 Theorem update_ids_collision m a strict inplace t :
@@ -514,7 +637,7 @@ Proof.
   assert (G : update_ids m a strict true t = RErr E_TABLE).
   { unfold update_ids, new_ids. destruct (strict && negb (forallb (mapped m) (ids a t))); [reflexivity|].
     rewrite D. reflexivity. }
-  destruct inplace; [exact G|]. rewrite <- update_ids_inplace_same. exact G.
+  destruct inplace; [exact G|]. rewrite update_ids_new_is_copy, G. reflexivity.
 Qed.
 
 Theorem update_ids_strict_missing m a inplace t :
@@ -527,14 +650,16 @@ Proof. unfold mapped, rename. destruct (lookup_map m x); [discriminate|reflexivi
 Lemma map_rename_nil l : map (rename []) l = l.
 Proof. induction l as [|x l IH]; simpl; [reflexivity|]. rewrite IH. reflexivity. Qed.
 
-Theorem update_ids_nothing a inplace t : wf t -> update_ids [] a false inplace t = ROk t.
+(* the renaming that renames nothing: the receiver as it is / its copy *)
+Theorem update_ids_nothing a inplace t : wf t -> update_ids [] a false inplace t = ROk (if inplace then t else copy t).
 Proof.
-  intros W. rewrite <- (copy_id t) at 2.
-  destruct inplace; [|rewrite <- update_ids_inplace_same]; unfold update_ids, new_ids; simpl;
-    rewrite map_rename_nil;
-    (replace (zdup (ids a t)) with false by (symmetry; apply zdup_false_NoDup; apply wf_NoDup; exact W));
-    (replace (set_ids a (ids a t) t) with t by (destruct t, a; reflexivity));
-    rewrite copy_id; apply errcheck_ok; [apply (wf_NoDup Obs _ W)|apply (wf_NoDup Samp _ W)|apply (wf_NoDup Obs _ W)|apply (wf_NoDup Samp _ W)].
+  intros W.
+  assert (G : update_ids [] a false true t = ROk t).
+  { unfold update_ids, new_ids. simpl. rewrite map_rename_nil.
+    replace (zdup (ids a t)) with false by (symmetry; apply zdup_false_NoDup; apply wf_NoDup; exact W).
+    replace (set_ids a (ids a t) t) with t by (destruct t, a; reflexivity).
+    apply errcheck_ok; [apply (wf_NoDup Obs _ W)|apply (wf_NoDup Samp _ W)]. }
+  destruct inplace; [exact G|]. rewrite update_ids_new_is_copy, G. reflexivity.
 Qed.
 
 (* ---------------- align_to ---------------- *)
@@ -550,18 +675,17 @@ Lemma align_one other_t a t :
   exists t', sort_order (ids a other_t) a t = ROk t' /\
     ids a t' = ids a other_t /\
     (forall o s, cell t' o s = cell t o s) /\
-    (forall b x, md_of b t' x = md_of b t x) /\
-    ids (other a) t' = ids (other a) t /\ ttype t' = ttype t /\ wf t'.
+    (forall b x, md_view b t' x = md_view b t x) /\
+    ids (other a) t' = ids (other a) t /\ ttype t' = ttype t /\ normal t' /\ wf t'.
 Proof.
   intros W Wo S.
-  destruct (sort_order_perm (ids a other_t) a t W) as (t' & E & A & B & C & D & F & G & H).
+  destruct (sort_order_perm (ids a other_t) a t W) as (t' & E & A & B & C & D & F & G & Hn & H).
   { apply same_set_perm; [apply wf_NoDup; exact W|apply wf_NoDup; exact Wo|exact S]. }
-  exists t'. split; [exact E|]. split; [exact A|]. split; [exact B|]. split.
-  { intros b x. destruct a, b; try apply C; apply md_of_ext; assumption. }
-  split; [exact D|]. split; [exact G|exact H].
+  exists t'. split; [exact E|]. split; [exact A|]. split; [exact B|]. split; [exact C|].
+  split; [exact D|]. split; [exact G|]. split; [exact Hn|exact H].
 Qed.
 
-(* which axes a mode aligns, and when the call is accepted (table.py:3498-3523) *)
+(* which axes a mode aligns, and when the call is accepted (table.py align_to) *)
 Definition aligned (m : amode) (a : axis) (t other_t : table) : bool :=
   match m with
   | ASample => match a with Samp => true | Obs => false end
@@ -583,52 +707,52 @@ Theorem align_to_ok other_t m t :
   exists t', align_to other_t m t = ROk t' /\
     (forall a, ids a t' = if aligned m a t other_t then ids a other_t else ids a t) /\
     (forall o s, cell t' o s = cell t o s) /\
-    (forall a x, md_of a t' x = md_of a t x) /\
-    ttype t' = ttype t /\ wf t'.
+    (forall a x, md_view a t' x = md_view a t x) /\
+    ttype t' = ttype t /\ normal t' /\ wf t'.
 Proof.
   intros W Wo Hok. unfold align_ok in Hok. unfold align_to.
   destruct m; simpl in Hok.
   - (* sample *)
     change (sids t) with (ids Samp t) in *. change (sids other_t) with (ids Samp other_t) in *. rewrite Hok.
-    destruct (align_one other_t Samp t W Wo Hok) as (t' & E & A & B & C & D & F & G).
+    destruct (align_one other_t Samp t W Wo Hok) as (t' & E & A & B & C & D & F & Hn & G).
     exists t'. split; [exact E|]. split; [intros [|]; simpl; assumption|].
-    split; [exact B|]. split; [exact C|]. split; [exact F|exact G].
+    split; [exact B|]. split; [exact C|]. split; [exact F|]. split; [exact Hn|exact G].
   - (* observation *)
     change (oids t) with (ids Obs t) in *. change (oids other_t) with (ids Obs other_t) in *. rewrite Hok.
-    destruct (align_one other_t Obs t W Wo Hok) as (t' & E & A & B & C & D & F & G).
+    destruct (align_one other_t Obs t W Wo Hok) as (t' & E & A & B & C & D & F & Hn & G).
     exists t'. split; [exact E|]. split; [intros [|]; simpl; assumption|].
-    split; [exact B|]. split; [exact C|]. split; [exact F|exact G].
+    split; [exact B|]. split; [exact C|]. split; [exact F|]. split; [exact Hn|exact G].
   - (* both *)
     rewrite Hok. apply andb_true_iff in Hok. destruct Hok as [Ho Hs].
-    destruct (align_one other_t Obs t W Wo Ho) as (t1 & E1 & A1 & B1 & C1 & D1 & F1 & G1).
+    destruct (align_one other_t Obs t W Wo Ho) as (t1 & E1 & A1 & B1 & C1 & D1 & F1 & N1 & G1).
     assert (Hs1 : same_set (ids Samp t1) (ids Samp other_t) = true) by (simpl in *; rewrite D1; exact Hs).
-    destruct (align_one other_t Samp t1 G1 Wo Hs1) as (t2 & E2 & A2 & B2 & C2 & D2 & F2 & G2).
+    destruct (align_one other_t Samp t1 G1 Wo Hs1) as (t2 & E2 & A2 & B2 & C2 & D2 & F2 & N2 & G2).
     exists t2. simpl in *. rewrite E1. simpl. split; [exact E2|].
     split; [intros [|]; simpl; congruence|].
     split; [intros o s; rewrite B2; apply B1|].
     split; [intros a x; rewrite C2; apply C1|].
-    split; [congruence|exact G2].
+    split; [congruence|]. split; [exact N2|exact G2].
   - (* detect *)
     rewrite Hok.
     destruct (same_set (sids t) (sids other_t)) eqn:Hs.
-    + destruct (align_one other_t Samp t W Wo Hs) as (t1 & E1 & A1 & B1 & C1 & D1 & F1 & G1).
+    + destruct (align_one other_t Samp t W Wo Hs) as (t1 & E1 & A1 & B1 & C1 & D1 & F1 & N1 & G1).
       simpl in *. rewrite E1. simpl.
       destruct (same_set (oids t) (oids other_t)) eqn:Ho.
       * assert (Ho1 : same_set (ids Obs t1) (ids Obs other_t) = true) by (simpl; rewrite D1; exact Ho).
-        destruct (align_one other_t Obs t1 G1 Wo Ho1) as (t2 & E2 & A2 & B2 & C2 & D2 & F2 & G2).
+        destruct (align_one other_t Obs t1 G1 Wo Ho1) as (t2 & E2 & A2 & B2 & C2 & D2 & F2 & N2 & G2).
         exists t2. simpl in *. split; [exact E2|].
         split; [intros [|]; simpl; rewrite ?Ho, ?Hs; congruence|].
         split; [intros o s; rewrite B2; apply B1|].
         split; [intros a x; rewrite C2; apply C1|].
-        split; [congruence|exact G2].
+        split; [congruence|]. split; [exact N2|exact G2].
       * exists t1. split; [reflexivity|].
         split; [intros [|]; simpl; rewrite ?Ho, ?Hs; assumption|].
-        split; [exact B1|]. split; [exact C1|]. split; [exact F1|exact G1].
+        split; [exact B1|]. split; [exact C1|]. split; [exact F1|]. split; [exact N1|exact G1].
     + simpl in Hok. rewrite orb_false_r in Hok.
-      destruct (align_one other_t Obs t W Wo Hok) as (t1 & E1 & A1 & B1 & C1 & D1 & F1 & G1).
+      destruct (align_one other_t Obs t W Wo Hok) as (t1 & E1 & A1 & B1 & C1 & D1 & F1 & N1 & G1).
       simpl in *. rewrite Hok. exists t1. split; [exact E1|].
       split; [intros [|]; simpl; rewrite ?Hok, ?Hs; assumption|].
-      split; [exact B1|]. split; [exact C1|]. split; [exact F1|exact G1].
+      split; [exact B1|]. split; [exact C1|]. split; [exact F1|]. split; [exact N1|exact G1].
   - discriminate.
 Qed.
 
@@ -640,12 +764,16 @@ Proof.
 Qed.
 
 (* ---------------- restatements used by Props/C06.v ---------------- *)
+(* transposing twice (each time through the constructor) restores ids, order, values and the metadata
+   as the constructor normalises it *)
 Theorem transpose_twice t : wf t ->
-  let t2 := transpose_t (transpose_t t) in
-  oids t2 = oids t /\ sids t2 = sids t /\ mat t2 = mat t /\ omd t2 = omd t /\ smd t2 = smd t /\
-  (forall o s, cell t2 o s = cell t o s).
+  let t2 := transpose_c (transpose_c t) in
+  oids t2 = oids t /\ sids t2 = sids t /\ mat t2 = mat t /\ omd t2 = ctor_md (omd t) /\ smd t2 = ctor_md (smd t) /\
+  (forall o s, cell t2 o s = cell t o s) /\ (forall b x, md_view b t2 x = md_view b t x).
 Proof.
-  intros W. rewrite (transpose_t_involutive t W). simpl. repeat split; reflexivity.
+  intros W. cbv zeta. rewrite (transpose_c_twice t W). simpl.
+  split; [reflexivity|]. split; [reflexivity|]. split; [reflexivity|]. split; [reflexivity|]. split; [reflexivity|].
+  split; [intros o s; reflexivity|]. intros b x. apply md_view_ctor; destruct b; reflexivity.
 Qed.
 
 (* strict=False: an id without a mapping stays, with its values and metadata *)
@@ -653,7 +781,7 @@ Theorem update_ids_unmapped_kept m a inplace t t' :
   wf t -> (forall x y, In x (ids a t) -> In y (ids a t) -> rename m x = rename m y -> x = y) ->
   update_ids m a false inplace t = ROk t' ->
   forall x, In x (ids a t) -> mapped m x = false ->
-    In x (ids a t') /\ (forall y, cell_ax a t' x y = cell_ax a t x y) /\ md_of a t' x = md_of a t x.
+    In x (ids a t') /\ (forall y, cell_ax a t' x y = cell_ax a t x y) /\ md_view a t' x = md_view a t x.
 Proof.
   intros W Inj H x Hx Hm.
   destruct (update_ids_injective m a false inplace t W (fun E => False_ind _ (Bool.diff_false_true E)) Inj)
@@ -671,12 +799,6 @@ Qed.
 
 (* ---------------- unconditional coherence preservation (used by C05) ----------------
    for ANY arguments: whenever the operation returns a table, that table is coherent *)
-Lemma errcheck_NoDup t t' : errcheck t = ROk t' -> t' = t /\ NoDup (oids t) /\ NoDup (sids t).
-Proof.
-  unfold errcheck. destruct (zdup (oids t)) eqn:A; [discriminate|]. destruct (zdup (sids t)) eqn:B; [discriminate|].
-  simpl. intros H. inversion H; subst. split; [reflexivity|]. split; apply zdup_false_NoDup; assumption.
-Qed.
-
 Theorem sort_order_wf order a t t' : wf t -> sort_order order a t = ROk t' -> wf t'.
 Proof.
   intros W H. unfold sort_order in H. destruct (lookup_all order (ids a t)) as [fancy|] eqn:Hf; [|discriminate].
@@ -689,12 +811,16 @@ Proof. unfold sort. apply sort_order_wf. Qed.
 
 Theorem update_ids_wf m a strict inplace t t' : wf t -> update_ids m a strict inplace t = ROk t' -> wf t'.
 Proof.
-  intros W H. assert (H' : update_ids m a strict false t = ROk t').
-  { destruct inplace; [rewrite <- update_ids_inplace_same|]; exact H. }
-  clear H. unfold update_ids, new_ids in H'.
-  destruct (strict && negb (forallb (mapped m) (ids a t))); [discriminate|].
-  rewrite copy_id in H'. apply errcheck_NoDup in H'. destruct H' as (-> & No & Ns).
-  apply wf_set_ids; [exact W| |apply map_length]. destruct a; simpl in *; assumption.
+  intros W H.
+  assert (G : forall t1, update_ids m a strict true t = ROk t1 -> wf t1).
+  { intros t1 H1. unfold update_ids, new_ids in H1.
+    destruct (strict && negb (forallb (mapped m) (ids a t))); [discriminate|].
+    destruct (zdup (map (rename m) (ids a t))); [discriminate|].
+    apply errcheck_NoDup in H1. destruct H1 as (-> & No & Ns).
+    apply wf_set_ids; [exact W| |apply map_length]. destruct a; simpl in *; assumption. }
+  destruct inplace; [apply G; exact H|].
+  rewrite update_ids_new_is_copy in H. destruct (update_ids m a strict true t) as [t1|] eqn:E; [|discriminate].
+  simpl in H. inversion H; subst. apply wf_copy. apply G. reflexivity.
 Qed.
 
 Theorem align_to_wf_gen other_t m t t' : wf t -> align_to other_t m t = ROk t' -> wf t'.
@@ -720,3 +846,63 @@ Qed.
 
 Theorem align_to_wf other_t m t t' : wf t -> wf other_t -> align_to other_t m t = ROk t' -> wf t'.
 Proof. intros W _. apply align_to_wf_gen. exact W. Qed.
+
+(* ---------------- constructor-normal metadata is an invariant ----------------
+   every table the constructor built has normal metadata (ctor_md is idempotent); the operations
+   below keep it (sort_order, sort, align_to, copy, transpose even establish it) *)
+Theorem sort_order_normal order a t t' : sort_order order a t = ROk t' -> normal t'.
+Proof.
+  intros H. unfold sort_order in H. destruct (lookup_all order (ids a t)) as [fancy|]; [|discriminate].
+  apply errcheck_inv in H. subst. apply reorder_normal.
+Qed.
+
+Theorem sort_normal (sortf : list Z -> list Z) a t t' : sort sortf a t = ROk t' -> normal t'.
+Proof. unfold sort. apply sort_order_normal. Qed.
+
+Theorem update_ids_normal m a strict inplace t t' : normal t -> update_ids m a strict inplace t = ROk t' -> normal t'.
+Proof.
+  intros N H.
+  assert (G : forall t1, update_ids m a strict true t = ROk t1 -> normal t1).
+  { intros t1 H1. unfold update_ids in H1. destruct (new_ids m strict (ids a t)) as [new|]; [|discriminate].
+    destruct (zdup new); [discriminate|]. apply errcheck_inv in H1. subst.
+    destruct N as [A B]. destruct a; split; simpl; assumption. }
+  destruct inplace; [apply G; exact H|].
+  rewrite update_ids_new_is_copy in H. destruct (update_ids m a strict true t) as [t1|]; [|discriminate].
+  simpl in H. inversion H; subst. apply copy_normal.
+Qed.
+
+Theorem align_to_normal other_t m t t' : normal t -> align_to other_t m t = ROk t' -> normal t'.
+Proof.
+  intros N H. unfold align_to in H. destruct m.
+  - destruct (same_set (sids t) (sids other_t)); [|discriminate]. eapply sort_order_normal; eassumption.
+  - destruct (same_set (oids t) (oids other_t)); [|discriminate]. eapply sort_order_normal; eassumption.
+  - destruct (same_set (oids t) (oids other_t) && same_set (sids t) (sids other_t)); [|discriminate].
+    destruct (sort_order (oids other_t) Obs t) as [t1|]; simpl in H; [|discriminate].
+    eapply sort_order_normal; eassumption.
+  - destruct (same_set (oids t) (oids other_t) || same_set (sids t) (sids other_t)); [|discriminate].
+    destruct (same_set (sids t) (sids other_t)).
+    + destruct (sort_order (sids other_t) Samp t) as [t1|] eqn:E1; simpl in H; [|discriminate].
+      destruct (same_set (oids t) (oids other_t)); [eapply sort_order_normal; eassumption|].
+      inversion H; subst. eapply sort_order_normal; eassumption.
+    + simpl in H. destruct (same_set (oids t) (oids other_t)); [eapply sort_order_normal; eassumption|].
+      inversion H; subst. exact N.
+  - discriminate.
+Qed.
+
+(* under normal metadata the exact statements hold *)
+Theorem sort_order_back_normal order a t t' :
+  wf t -> normal t -> Permutation order (ids a t) -> sort_order order a t = ROk t' ->
+  sort_order (ids a t) a t' = ROk t.
+Proof. intros W N P H. rewrite (sort_order_back order a t t' W P H), (copy_id t N). reflexivity. Qed.
+
+(* for a normal table the metadata view determines the stored entry *)
+Lemma normal_md_of b t x m : md_normal (mds b t) -> md_of b t x = Some m -> md_view b t x = m.
+Proof.
+  intros N H. unfold md_view. rewrite H. unfold cast_entry. destruct (tree_eqb m md_none) eqn:E; [|reflexivity].
+  exfalso. apply tree_eqb_eq in E. subst m. unfold md_of, md_at in H. destruct (pos x (ids b t)) as [i|]; [|discriminate].
+  unfold md_normal in N. destruct (mds b t) as [l|]; [|discriminate]. simpl in N.
+  destruct (forallb md_falsy l); [discriminate|]. inversion N as [N1].
+  assert (In md_none (map cast_entry l)) by (rewrite N1; eapply nth_error_In; exact H).
+  apply in_map_iff in H0. destruct H0 as [y [Hy _]]. unfold cast_entry in Hy.
+  destruct (tree_eqb y md_none) eqn:Ey; [discriminate|]. subst y. rewrite tree_eqb_refl in Ey. discriminate.
+Qed.
